@@ -384,7 +384,7 @@ pub fn worker_k<K: Kind>(args: &[String]) -> i32 {
 }
 
 pub const BIG_PROPS: [&str; 8] = ["C01", "C02", "C03", "C04", "C05", "C06", "C15", "C16"];
-pub const SWEEP_PROPS: [&str; 7] = ["C01", "C02", "C03", "C04", "C05", "C06", "C08"];
+pub const SWEEP_PROPS: [&str; 8] = ["C01", "C02", "C03", "C04", "C05", "C06", "C08", "C11"];
 
 /// One worker of the small-scope sweep: cases index, index+of, ...
 pub fn sweep_worker(args: &[String]) -> i32 {
@@ -396,11 +396,13 @@ pub fn sweep_worker(args: &[String]) -> i32 {
     init_process();
     let mut out = WorkerOut { label_hist: vec![0; 64], counters: vec![0; exec::NCOUNTERS], ..Default::default() };
     let mut hashes: BTreeSet<u64> = BTreeSet::new();
-    let total = crate::sweep::total().min(limit);
-    let mut k = index;
+    let total = crate::sweep::total_for(&id).min(limit);
+    let stride: u64 = arg(args, "--stride").and_then(|s| s.parse().ok()).unwrap_or(1).max(1);
+    let phase: u64 = arg(args, "--phase").and_then(|s| s.parse().ok()).unwrap_or(0) % stride;
+    let mut k = index * stride + phase;
+    let of = of * stride;
     while k < total {
-        let c = crate::sweep::case(k);
-        let s = crate::sweep::to_script(&c, k);
+        let (c, s) = crate::sweep::script_for(&id, k);
         let r = run_case(&id, Tier::Thorough, &s);
         out.evaluations += 1;
         for l in 0..64 {
@@ -414,7 +416,7 @@ pub fn sweep_worker(args: &[String]) -> i32 {
                 if r.nontrivial {
                     hashes.insert(case_hash(&s));
                     if out.samples.len() < 2 {
-                        out.samples.push(format!("sweep#{} {:?} => {}", k, c, s.compact()));
+                        out.samples.push(format!("sweep#{} {} => {}", k, c, s.compact()));
                     }
                 }
             }
@@ -703,7 +705,11 @@ pub fn launcher_k<K: Kind>(args: &[String]) -> i32 {
     }
     // 2b. small-scope sweep (thorough tier)
     let mut sweep_info = serde_json::json!(null);
-    let do_sweep = SWEEP_PROPS.contains(&id.as_str()) && (tier == Tier::Thorough || arg(args, "--sweep").is_some()) && !args.iter().any(|a| a == "--no-sweep");
+    // C11's fault enumeration is cheap: the quick tier runs every 8th case of it
+    // (phase chosen by the seed), the thorough tier all of it
+    let quick_c11 = id == "C11" && tier == Tier::Quick && arg(args, "--sweep").is_none();
+    let stride: u64 = if quick_c11 { 8 } else { 1 };
+    let do_sweep = SWEEP_PROPS.contains(&id.as_str()) && (tier == Tier::Thorough || quick_c11 || arg(args, "--sweep").is_some()) && !args.iter().any(|a| a == "--no-sweep");
     if do_sweep {
         let limit = arg(args, "--sweep").and_then(|s| s.parse::<u64>().ok()).unwrap_or(u64::MAX);
         let mut kids = vec![];
@@ -718,6 +724,10 @@ pub fn launcher_k<K: Kind>(args: &[String]) -> i32 {
                 .arg(nworkers.to_string())
                 .arg("--limit")
                 .arg(limit.to_string())
+                .arg("--stride")
+                .arg(stride.to_string())
+                .arg("--phase")
+                .arg((seed % stride).to_string())
                 .arg("--out")
                 .arg(&out)
                 .spawn()
@@ -760,11 +770,12 @@ pub fn launcher_k<K: Kind>(args: &[String]) -> i32 {
         replayed += sw_eval;
         sweep_info = serde_json::json!({
             "cases": sw_eval,
-            "space": crate::sweep::total(),
-            "exhaustive": limit == u64::MAX,
+            "space": crate::sweep::total_for(&id),
+            "exhaustive": limit == u64::MAX && stride == 1,
+            "stride": stride,
             "nontrivial": sw_nontrivial,
             "inconclusive_other_property": sw_other,
-            "description": "every adoption multigraph on 1..3 objects with multiplicity <= 2 per ordered pair (self pairs included) x kept/dropped roots x Weak to every object or none x every drop order; plus n=2 with multiplicity <= 3, one optional unrecorded stored handle, one optional loopback",
+            "description": if id == "C11" { "fault enumeration: every adoption graph on 1..3 objects with multiplicity <= 1 per ordered pair (self pairs included) x kept/dropped roots x Weak to every object or none x every drop order x which object's destructor panics x with/without observations from the other destructors" } else { "every adoption multigraph on 1..3 objects with multiplicity <= 2 per ordered pair (self pairs included) x kept/dropped roots x Weak to every object or none x every drop order; plus n=2 with multiplicity <= 3, one optional unrecorded stored handle, one optional loopback" },
         });
     }
     // 2d. large-scale semantic cases (size thresholds): rings with tails of up
@@ -920,7 +931,7 @@ pub fn launcher_k<K: Kind>(args: &[String]) -> i32 {
         "property_id": id,
         "tier": if tier == Tier::Thorough { "thorough" } else { "quick" },
         "seed": seed,
-        "level": "exploration",
+        "level": if id == "C11" { "fault_enumeration" } else { "exploration" },
         "coverage": {
             "evaluations": merged.evaluations + replayed,
             "distinct_nontrivial": hashes.len(),
